@@ -27,10 +27,19 @@ first failure; `qwg.Done` is deferred so that it runs after `setErr`); `false` i
 (the emitter `break`s after the first failure; `qwg.Done()` runs before `setErr`).
 
 Atomic actions are single channel operations, latch reads/writes (mutex), WaitGroup operations and `go`
-statements, except for these merges (each a left-mover, so no behaviour is lost):
-`bg.queue <- c; bg.qwg.Add(1); go c.writeBlock()` is one step; in `Flush` the receive from `waiting` and
-that enqueue are one step; in `Close`, `c.writeBlock()` (synchronous) and `close(bg.queue)` are one step;
-the emitter's `<-qw.flush`, its latch read (repaired tree) and the call of the underlying `Write` are one step.
+statements, except for these seven merges (each merged action is local to its goroutine or a left-/both-mover,
+so no behaviour of the finer-grained program is lost):
+1. `bg.queue <- c; bg.qwg.Add(1); go c.writeBlock()` is one step (`wSub`, `cEnq` without the `go`);
+2. in `Flush` the receive from `waiting` and that enqueue are one step (`fSwap`);
+3. in `Close`, `c.writeBlock()` (synchronous) and `bg.closed = true; close(bg.queue)` are one step (`cComp`);
+4. the emitter's `<-qw.flush`, its `c.err` test, its latch read (repaired tree) and the call of the underlying
+   `Write` are one step (`hold`);
+5. `Wait`: `bg.qwg.Wait()` and the following `bg.Error()` are one step (`wtBlock`) — exact: with `pending = 0`
+   and the single API goroutine inside `Wait`, nothing can set the latch in between;
+6. `Write`: the loop-exit test `err == nil` / `len(b) > 0` and the final `return n, bg.Error()` are one latch
+   read (`wLoop 0`) — the first read's nil result leads to the second read, whose result is the one returned;
+7. `Close`: the test `bg.err == nil` and the underlying `Write` of the EOF marker are one step (`cEof`) — exact:
+   the emitter has finished (`wg.Wait()` returned), nobody else can set `bg.err`.
 -/
 namespace Hts.Model.WriterLTS
 
